@@ -1,19 +1,25 @@
 /-
   The protocol against the dense interpreter, continued (Lemmas/ApiDense.lean covers the plain
-  lines): the MULTI-MAP and RESOLUTION family.
+  lines): the MULTI-MAP and RESOLUTION family `mop` / `upg` / `deg` / `fracdet`.
 
-  * `dUpgrade`, `dMulti`: `upgrade` and `_apply_operation` on dense arrays, validation included
-    (from the headers, the arguments and the dense values); `apiUpgrade_corr`, `multi_corr`:
-    the API functions respect `Corr`;
-  * `dstepArgsM` / `dstepM` / `drunM`: the dense interpreter extended by `upg` and `mop`;
+  * `dUpgrade`, `dMulti`, `dDegrade` (`dRehouse`, `dCore`), `dFracdetMap`: `upgrade`,
+    `_apply_operation`, `degrade` and `fracdet_map` on dense arrays, validation included (from
+    the headers, the arguments and the dense values); `apiUpgrade_corr`, `multi_corr`,
+    `rehouse_corr`, `core_corr`, `degrade_corr`, `fracdet_corr`: the API functions respect `Corr`;
+  * `dstepArgsM` / `dstepM` / `drunM`: the dense interpreter extended by the four lines;
   * `rel_stepM`, `rel_runLinesM`: one line / a history keeps a (good) world and a dense world in
     agreement and is answered alike.
 
-  FINDING (see `mopSettled`, and the `#guard` counterexamples in Props/C06Dense.lean): the answer
-  of a `mop` line is NOT a function of the dense views of its inputs.  `_apply_operation` returns
-  `make_empty_like(first)` before any look at the cells when the combined COVERAGE is empty, and
-  a covered-but-unset coverage pixel is invisible in the dense view.  The refinement therefore
-  carries the side condition `settled`, decided on the dense side alone.
+  FINDINGS (see `mopSettled`, `coreSettled`, and the `#guard` counterexamples in
+  Props/C06Dense.lean): the answer of a `mop` line, and of a `deg` line with `sum` / `prod`, is
+  NOT a function of the dense views of its inputs.  `_apply_operation` returns
+  `make_empty_like(first)` before any look at the cells when the combined COVERAGE is empty;
+  `_degrade` reduces the children of every coarse pixel of a COVERED coverage pixel (`nansum` of
+  nothing = 0, a valid value) and leaves the others unset; a covered-but-unset coverage pixel is
+  invisible in the dense view.  The refinement therefore carries the side condition `settled`,
+  decided on the dense side alone.  The world-level hypothesis `w.Good` (Lemmas/WFWorld.lean;
+  every reachable world is good) supplies `KindOk` of the looked-up maps, which the value
+  lemmas of Lemmas/ApiMulti.lean and Lemmas/ApiDegrade.lean need.
 -/
 import HealSparse.Lemmas.ApiDense
 import HealSparse.Lemmas.ApiMulti
@@ -1219,6 +1225,38 @@ theorem core_corr {m : MapObj} {d : DenseMap} (hc : Corr m d) (hk : m.KindOk) {r
     rw [hfp, hbi] at hval
     cases hval
 
+/-! ### reading the dense `_degrade` -/
+
+/-- the valid children of coarse pixel `q` in the dense array -/
+def dValidChildren (d : DenseMap) (ord q : Nat) : List Nat :=
+  (childPix d.hdr ord q).filter fun p => DenseMap.valid d (d.f p)
+
+/-- **float path** (every reduction of a float / boolean map, every reduction but `and` / `or`
+    of an integer map): the nan-reduction over EXACTLY the valid children — their values and,
+    for `wmean`, their weights — `NaN` (no valid child; zero total weight) giving the sentinel -/
+theorem dCoreVal_float {d : DenseMap} {dt : DT} (hk : d.kind = .plain dt) {red : String}
+    (hc : (dt.isInt && isAndOr red) = false) (wd : Option DenseMap) (ord q : Nat) :
+    dCoreVal d ord red wd q =
+      fltOut (if red == "wmean" && isF64 (hdrW wd) then .flt 64 else auxDT dt)
+        (reduceVals red ((dValidChildren d ord q).map fun p => (d.f p).numD)
+          ((dValidChildren d ord q).map fun p => (dWAt d red wd p).numD)
+          ((childPix d.hdr ord q).map fun p => (dWAt d red wd p).numD)) := by
+  unfold dCoreVal coreRed dValidChildren
+  rw [show d.hdr.kind = d.kind from rfl, hk]
+  simp only [hc, Bool.false_eq_true, if_false]
+  rw [fltRed_eq, List.filter_map, List.map_map, List.map_map, List.map_map]
+  rfl
+
+/-- **integer `and` / `or`**: the fold over ALL the children, valid or not -/
+theorem dCoreVal_int {d : DenseMap} {dt : DT} (hk : d.kind = .plain dt) {red : String}
+    (hc : (dt.isInt && isAndOr red) = true) (wd : Option DenseMap) (ord q : Nat) :
+    dCoreVal d ord red wd q = intRed dt d.sent red ((childPix d.hdr ord q).map d.f) := by
+  unfold dCoreVal coreRed
+  rw [show d.hdr.kind = d.kind from rfl, hk]
+  simp only [hc, if_true]
+  rw [List.map_map]
+  rfl
+
 /-! ### re-housing (`degrade` below the coverage resolution) -/
 
 /-- the only error a `replace` of distinct in-range pixels of an owning map can raise: a value
@@ -1642,20 +1680,102 @@ theorem rel_deg {w : World} {D : DenseWorld} (h : Rel w D) (hw : w.Good) (a : Ar
 
 end degrade
 
+/-! ### the `fracdet` line -/
+
+section fracdet
+open ApiDegrade ApiResolution
+
+/-- `fracdet_map(nside)` on a dense array: a float64 array with sentinel `0.0` holding, at every
+    coarse pixel, the exact fraction `(number of valid children) / 4^(spord - ord)` -/
+def dFracdetMap (d : DenseMap) (ord : Nat) : DenseMap :=
+  ⟨d.covord, ord, .plain (.flt 64), .num 0 0, fun q =>
+    fracCell ((childPix d.hdr ord q).filter fun p => DenseMap.valid d (d.f p)).length
+      (2 * (d.spord - ord))⟩
+
+theorem filter_congr_mem {α : Type} {p q : α → Bool} {l : List α} (h : ∀ a ∈ l, p a = q a) :
+    l.filter p = l.filter q := by
+  induction l with
+  | nil => rfl
+  | cons a l ih =>
+    rw [List.filter_cons, List.filter_cons, h a List.mem_cons_self,
+      ih (fun b hb => h b (List.mem_cons_of_mem _ hb))]
+
+theorem fracdet_corr {m : MapObj} {d : DenseMap} (hc : Corr m d) (hk : m.KindOk) {ord : Nat}
+    (hlo : m.covord ≤ ord) (hhi : ord ≤ m.spord) : Corr (fracdetMap m ord) (dFracdetMap d ord) := by
+  have hwf : (fracdetMap m ord).WF := WF.fracdet hc.wf hk hlo hhi
+  refine ⟨hwf, rfl, hc.covord, rfl, rfl, rfl, ?_⟩
+  intro q hq
+  have hq' : q < 12 * 4 ^ ord := by
+    have : (fracdetMap m ord).npix = (cfgOf m.covord ord).npix := rfl
+    rw [this, npix_eq_pow hlo] at hq
+    exact hq
+  rw [fracdetMap_abs hc.wf hk.blankInvalid hlo hhi hq']
+  show _ = fracCell _ _
+  rw [hc.spord]
+  congr 1
+  unfold fracCount validChildren
+  rw [childPix_hdr hc]
+  congr 1
+  apply filter_congr_mem
+  intro p hp
+  have hpm : p < m.npix :=
+    childPix_lt hlo hhi (by rw [npix_eq_pow hlo]; exact hq') (by rw [childPix_hdr hc]; exact hp)
+  rw [hc.abs p hpm, valid_corr hc]
+
+/-- the dense side of a `fracdet` line -/
+def dFracdet (D : DenseWorld) (a : Args) : DenseWorld × String :=
+  dWithMap D a fun d =>
+    match a.get? "r", a.nat? "ord" with
+    | some r, some ord =>
+      if ord > d.spord || ord < d.covord then (D, errLine .value)
+      else (D.bind r (dFracdetMap d ord), "ok")
+    | _, _ => (D, "bad-op:fracdet")
+
+theorem opFracdet_eq' (w : World) (a : Args) :
+    opFracdet w a = withMap w a fun m =>
+      match a.get? "r", a.nat? "ord" with
+      | some r, some ord =>
+        if ord > m.spord || ord < m.covord then (w, errLine .value)
+        else (w.bind r (fracdetMap m ord), "ok")
+      | _, _ => (w, "bad-op:fracdet") := rfl
+
+theorem rel_fracdet {w : World} {D : DenseWorld} (h : Rel w D) (hw : w.Good) (a : Args) :
+    Rel (opFracdet w a).1 (dFracdet D a).1 ∧ (opFracdet w a).2 = (dFracdet D a).2 := by
+  rw [opFracdet_eq']
+  unfold dFracdet
+  refine rel_withMap h fun m d hget _ hc => ?_
+  have hmok := hw.get hget
+  cases a.get? "r" with
+  | none => exact ⟨h, rfl⟩
+  | some r =>
+    cases a.nat? "ord" with
+    | none => exact ⟨h, rfl⟩
+    | some ord =>
+      simp only []
+      rw [← hc.spord, ← hc.covord]
+      by_cases hb : (decide (ord > m.spord) || decide (ord < m.covord)) = true
+      · rw [if_pos hb, if_pos hb]; exact ⟨h, rfl⟩
+      · rw [if_neg hb, if_neg hb]
+        have hb' : ¬ ord > m.spord ∧ ¬ ord < m.covord := by simpa using hb
+        exact ⟨h.bind r (fracdet_corr hc hmok.2.1 (by omega) (by omega)), rfl⟩
+
+end fracdet
+
 /-! ### the extended dense interpreter -/
 
 /-- the lines of the multi-map and resolution family covered here: `mop` (the sixteen named
     union / intersection operations and the two `ufunc_*` forms), `upg`, `deg` (every reduction,
-    with and without a weight map, above and below the coverage order) -/
-def famOp (op : String) : Bool := op == "mop" || op == "upg" || op == "deg"
+    with and without a weight map, above and below the coverage order), `fracdet` -/
+def famOp (op : String) : Bool := op == "mop" || op == "upg" || op == "deg" || op == "fracdet"
 
-/-- **the dense interpreter, extended**: `mop`, `upg` and `deg` on dense arrays; every other
-    line as before -/
+/-- **the dense interpreter, extended**: `mop`, `upg`, `deg` and `fracdet` on dense arrays;
+    every other line as before -/
 def dstepArgsM (D : DenseWorld) (op : String) (a : Args) : DenseWorld × String :=
   match op with
   | "mop" => dMop D a
   | "upg" => dUpg D a
   | "deg" => dDeg D a
+  | "fracdet" => dFracdet D a
   | _ => dstepArgs D op a
 
 /-- the dense views decide the parsed line: always, except for some `mop` lines whose inputs
@@ -1697,7 +1817,7 @@ theorem dstepArgsM_plain {op : String} (hp : plainOp op = true) (D : DenseWorld)
 theorem famOp_not_packed {op : String} (h : famOp op = true) : op.startsWith "p." = false := by
   unfold famOp at h
   simp only [Bool.or_eq_true, beq_iff_eq] at h
-  rcases h with (rfl | rfl) | rfl <;> decide +kernel
+  rcases h with ((rfl | rfl) | rfl) | rfl <;> decide +kernel
 
 /-- **one parsed line of the family** -/
 theorem rel_stepArgsM {w : World} {D : DenseWorld} (h : Rel w D) (hw : w.Good) {op : String}
@@ -1710,10 +1830,11 @@ theorem rel_stepArgsM {w : World} {D : DenseWorld} (h : Rel w D) (hw : w.Good) {
     exact rel_stepArgs h hp a
   · unfold famOp at hf
     simp only [Bool.or_eq_true, beq_iff_eq] at hf
-    rcases hf with (rfl | rfl) | rfl
+    rcases hf with ((rfl | rfl) | rfl) | rfl
     · exact rel_mop h hw a hs
     · exact rel_upg h a
     · exact rel_deg h hw a hs
+    · exact rel_fracdet h hw a
 
 /-- **one line of the family**: a good world and a dense world in agreement stay in agreement
     and give the same answer, when the dense views decide the line -/
